@@ -976,22 +976,10 @@ def gen_c16(rnd, n, thorough=False):
                 arch = -1            # a missing destination and a failing source read: whichever fails first
             if sub == 'diff' and srckind == 'corrupt' and destkind == 'missing':
                 sub = 'view'         # an unreadable source and a missing destination: whichever fails first
-            if to == 'full' and sub in ('copy', 'sumcopy'):
-                # whether the report outgrows the 4096-byte buffer must be clear-cut: only the first write to
-                # a destination (everything differs, or a window of a few seconds) goes to /dev/full
-                if written.get(sub):
-                    to = 'file'
-            if sub in ('copy', 'sumcopy'):
-                written[sub] = True
-            if to == 'full' and ((sub == 'copy' and not (srckind != 'ok' or destkind == 'mismatch')) or sub == 'sumcopy'):
-                # the report must be clearly shorter or clearly longer than the 4096-byte buffer
-                # (sum-copy reads a.wsp and b.wsp and writes e/i1/sum.wsp whatever srckind / destkind say)
-                if dense and (sub == 'sumcopy' or destkind in ('missing', 'fresh')):
-                    wk, frm, until, arch = 'default', '0', '0', -1        # hundreds of records
-                else:
-                    wk, frm, until = 'narrow', '@-3', '@-1'                # a handful of records
-            if to == 'full' and sub in ('view', 'viewraw', 'sum', 'diff', 'sumdiff', 'generate'):
-                pass
+            # a writing command whose report cannot be written (or opened) reports an error; whether it had
+            # already written its destination by then is not promised by any property (it depends on how much
+            # of the report is buffered): such commands get a destination of their own that nothing reads later
+            faulty_write = sub in ('copy', 'sumcopy') and to in ('bad', 'full')
             key = '%s/%s/%s' % (sub, archsel, fault)
             hist[sub] = hist.get(sub, 0) + 1
             t = " textout=%s" % to
@@ -1004,12 +992,18 @@ def gen_c16(rnd, n, thorough=False):
                 if to == 'file' and (frm == '0') == (until == '0') and not frm.startswith('@+') and rnd.chance(0.5):
                     # the same invocation as a process: the exit status is the report
                     lines.append("cliexit src=s:%s dest=d:a.wsp from=%s until=%s archive=%d" % (src, frm, until, arch))
+            elif sub == 'copy' and faulty_write:
+                lines.append("clicopy src=s:%s dest=dt%d:a.wsp from=%s until=%s archive=%d copynan=%d m=%d x=%08x layout=%s%s" % (
+                    src, len(lines), frm, until, arch, rnd.pick([0, 1]), m, xff, lay_csv(layout), t))
             elif sub == 'copy':
                 lines += ["snap d/a.wsp", "clicopy src=s:%s dest=d:a.wsp from=%s until=%s archive=%d copynan=%d m=%d x=%08x layout=%s%s" % (
                     src, frm, until, arch, rnd.pick([0, 1]), m, xff, lay_csv(layout), t), "disk d/a.wsp"]
                 observe_all(lines, 'd/a.wsp', layout)
             elif sub == 'sum':
                 lines.append("clisum base=s item=%s src=%s from=%s until=%s archive=%d header=1%s" % (rnd.pick(['i1', 'i*', 'zz'] + (['st*', 'stray', 's*'] if stray else [])), rnd.pick(['*.wsp', 'a.wsp', 'q*.wsp']), frm, until, arch, t))
+            elif sub == 'sumcopy' and faulty_write:
+                lines.append("clisumcopy base=s item=i1 src=[ab].wsp destbase=et%d dest=sum.wsp from=%s until=%s archive=%d m=%d x=%08x layout=%s%s" % (
+                    len(lines), frm, until, arch, m, xff, lay_csv(layout), t))
             elif sub == 'sumcopy':
                 lines += ["snap e/i1/sum.wsp", "clisumcopy base=s item=%s src=[ab].wsp destbase=e dest=sum.wsp from=%s until=%s archive=%d m=%d x=%08x layout=%s%s" % (
                     'st*' if stray and archsel != 'out_of_range' and rnd.chance(0.25) else 'i1', frm, until, arch, m, xff, lay_csv(layout), t), "disk e/i1/sum.wsp"]
@@ -1082,24 +1076,28 @@ GENS['C16'] = gen_c16
 
 
 def gen_c05_cli(rnd, n, thorough=False):
-    """A CLI write that fails before its final Sync leaves an existing destination untouched:
-    copy / sum-copy whose (long) report cannot be written, or whose destination layout differs."""
+    """A CLI write that is refused leaves an existing destination untouched: copy / sum-copy onto a
+    destination whose layout differs (C08: reported without writing anything), small and multi-page files.
+    (Until round 12 these cases used a report that cannot be written, -text-out /dev/full; whether the
+    destination has been written by the time the report fails depends on the size of the report buffer,
+    which no property fixes.)"""
     cases = []
     for c in range(n):
         layout = CLI_LAYOUTS['big']
+        other = rnd.pick([[(s_, nn + 1) for s_, nn in layout], [(s_ * 2, nn) for s_, nn in layout], layout[:-1]])
         m, xff = rnd.pick(METHODS), 0x3f000000
         lines = fill_ops(rnd, 's/i1/a.wsp', layout, m, xff, density=1.0, inconsistent=False)
-        lines += fill_ops(rnd, 'd/a.wsp', layout, m, xff, density=rnd.pick([0.0, 0.3]), inconsistent=False)
+        lines += fill_ops(rnd, 'd/a.wsp', other, m, xff, density=rnd.pick([0.0, 0.3]), inconsistent=False)
         lines += copy_of([l for l in lines if ' d/a.wsp' in l], 'd/a.wsp', 'e/i1/sum.wsp')
         if rnd.chance(0.5):
-            lines += ["snap d/a.wsp", "clicopy src=s:i1/a.wsp dest=d:a.wsp from=0 until=0 archive=-1 copynan=%d m=%d x=%08x layout=%s textout=full" % (
+            lines += ["snap d/a.wsp", "clicopy src=s:i1/a.wsp dest=d:a.wsp from=0 until=0 archive=-1 copynan=%d m=%d x=%08x layout=%s" % (
                 rnd.pick([0, 1]), m, xff, lay_csv(layout)), "disk d/a.wsp"]
-            observe_all(lines, 'd/a.wsp', layout)
+            observe_all(lines, 'd/a.wsp', other)
         else:
-            lines += ["snap e/i1/sum.wsp", "clisumcopy base=s item=i1 src=a.wsp destbase=e dest=sum.wsp from=0 until=0 archive=-1 m=%d x=%08x layout=%s textout=full" % (
+            lines += ["snap e/i1/sum.wsp", "clisumcopy base=s item=i1 src=a.wsp destbase=e dest=sum.wsp from=0 until=0 archive=-1 m=%d x=%08x layout=%s" % (
                 m, xff, lay_csv(layout)), "disk e/i1/sum.wsp"]
-            observe_all(lines, 'e/i1/sum.wsp', layout)
-        cases.append({'id': 'c05-cli-%d' % c, 'lines': lines, 'tags': {'layout': 'big', 'ops': {'cli_failing_report': 1}}})
+            observe_all(lines, 'e/i1/sum.wsp', other)
+        cases.append({'id': 'c05-cli-%d' % c, 'lines': lines, 'tags': {'layout': 'big', 'ops': {'cli_refused_write': 1}}})
     return cases
 
 
